@@ -119,10 +119,29 @@ def rule_c(repo, chk):
     chk.ob('C09.c', decorators(sd) == ['inference_state_method_cache'], sd, 'sub_modules_dict is memoised per inference state only')
 
 
+def rule_d(repo, chk):
+    chk.clause('C09.d', 'the process-lifetime completion cache (api/completion_cache.py, never invalidated) is only switched on for a fixed '
+                        'table of third-party package names: every non-None assignment of `cached_name` in Completion._complete_trailer is gated '
+                        'by membership of the module name in a tuple of string constants (a project package must never get a cache name: its '
+                        'files change between Scripts)')
+    f = repo.find('jedi.api.completion', 'Completion._complete_trailer')
+    assigns = [a for a in stmts_in(f, ast.Assign) if norm(a.targets[0]) == 'cached_name' and not (isinstance(a.value, ast.Constant) and a.value.value is None)]
+    chk.floor('C09.d', len(assigns), 1, '(assignments of a cache name)')
+
+    def accept(e, pol):
+        return pol and isinstance(e, ast.Compare) and len(e.ops) == 1 and isinstance(e.ops[0], ast.In) and \
+            isinstance(e.comparators[0], (ast.Tuple, ast.List, ast.Set)) and e.comparators[0].elts and \
+            all(isinstance(x, ast.Constant) and isinstance(x.value, str) for x in e.comparators[0].elts)
+    for a in assigns:
+        w = gate(f, a, accept)
+        chk.ob('C09.d', w is None, a, 'a cache name is chosen only for a name out of a literal table of packages', w or '')
+        chk.ob('C09.d', isinstance(a.value, ast.Name), a, 'the cache name is the tested module name itself', norm(a.value))
+
+
 def describe(chk):
     chk.undecided('timestamp-granularity races; the pickled cache across processes (parso); staleness of importlib\'s per-directory finder caches '
                   'inside the long-lived helper (jedi never calls importlib.invalidate_caches(); recorded as an assumption, no witness found)')
     chk.assume('parso revalidates a cached tree against the file\'s mtime when it is given file_io/path')
 
 
-RULES = [('C09.a', rule_a), ('C09.b', rule_b), ('C09.c', rule_c)]
+RULES = [('C09.a', rule_a), ('C09.b', rule_b), ('C09.c', rule_c), ('C09.d', rule_d)]
